@@ -26,6 +26,9 @@ from harness import views_io as V
 from harness import c09gen
 
 PROP = 'C09'
+# self-test switch: skip the model / implementation comparison so that only the oracle on the implementation can report
+# (notes/C09_mutations.py --oracle)
+ORACLE_ONLY = bool(os.environ.get('VERIF_C09_ORACLE_ONLY'))
 
 META = dict(
     claimed=True,
@@ -325,7 +328,7 @@ def check_one(ctx, ids, b, obs, model, tag=None, shrinker=None):
                 ids2, b2, why2 = small
         report(ctx, 'oracle', stage, why2, ids2, b2, tag=tag)
         reported = True
-    if model is not None:
+    if model is not None and not ORACLE_ONLY:
         why = correspondence(obs, model)
         if why:
             report(ctx, 'correspondence', 'model', why, ids, b, tag=tag)
